@@ -95,6 +95,19 @@ Section Writes.
   Qed.
   Lemma apply_mws_app m a b : apply_mws K m (a ++ b) = apply_mws K (apply_mws K m a) b.
   Proof. unfold apply_mws. now rewrite fold_left_app. Qed.
+  Lemma movl_app a b i j : movl (a ++ b) i j = mseq (movl a) (movl b) i j.
+  Proof.
+    induction a as [|w a IH]; simpl.
+    - unfold mseq. destruct (movl b i j); reflexivity.
+    - unfold mseq in *. rewrite IH. destruct (movl b i j); reflexivity.
+  Qed.
+  (* ... and so is re-running a suffix *)
+  Lemma apply_mws_absorb2 m a b : apply_mws K (apply_mws K m b) (a ++ b) = apply_mws K m (a ++ b).
+  Proof.
+    rewrite !apply_mws_ov, app_mov_seq. unfold app_mov. apply imap_ext. intros i row.
+    apply imap_ext. intros j x. unfold mseq. rewrite movl_app. unfold mseq. destruct (movl b i j); [reflexivity|].
+    destruct (movl a i j); reflexivity.
+  Qed.
   (* re-running a prefix of a block-assignment program is absorbed by the whole program *)
   Lemma apply_mws_absorb m a b : apply_mws K (apply_mws K m a) (a ++ b) = apply_mws K m (a ++ b).
   Proof. now rewrite !apply_mws_app, apply_mws_idem. Qed.
@@ -412,4 +425,171 @@ Section Logic.
   Qed.
   Lemma dv_ok : triple TT (get_dv K code inp mode) (sound QDv).
   Proof. now apply dv_ok_aux. Qed.
+
+  (* ---- curvature_matrix ---- *)
+  Lemma p_pre_eq w : p_pre K inp w = apply_mws K (p_cmd K inp w) (cmdW w).
+  Proof.
+    unfold p_pre, cmdW. destruct (has_func inp); [now rewrite apply_mws_app|].
+    destruct (Nat.eqb (length (mappers inp)) 1); reflexivity.
+  Qed.
+  Lemma Inv_cmd_set st m' :
+    Inv st -> is_some (s_cmd (store st)) = true ->
+    (forall w, mode = Some w -> apply_mws K m' (cmdW w) = p_pre K inp w) ->
+    Inv {| cache := cache st; store := mslot_set SCmd m' (store st) |} /\ evolves (store st) (mslot_set SCmd m' (store st)).
+  Proof.
+    intros [Hc Hs] Hp Hw.
+    assert (Hev : evolves (store st) (mslot_set SCmd m' (store st))).
+    { unfold evolves. simpl. repeat split; auto. }
+    split; [|assumption]. split.
+    - destruct Hc as (c1&c2&c3&c4&c5&c6&c7&c8&c9).
+      refine (conj c1 (conj c2 (conj c3 (conj c4 (conj c5 (conj c6 (conj c7 (conj c8 _)))))))).
+      simpl. intros m w Hm Hmode. injection Hm as <-. now apply Hw.
+    - intros q c Hq. simpl in *. eapply sound_mono; [apply Hev | apply Hs, Hq].
+  Qed.
+  Definition ref_ok (r : mref T) (p : pstore T) : Prop :=
+    (exists m, r = MOwn m) \/ (r = MAlias SCmd /\ is_some (s_cmd p) = true).
+  Lemma write_m_ok w r ws X :
+    mode = Some w ->
+    apply_mws K (apply_mws K X ws) (cmdW w) = p_pre K inp w ->
+    triple (fun p => ref_ok r p /\ rdm r p = X) (write_m K r ws)
+           (fun r' p => ref_ok r' p /\ rdm r' p = apply_mws K X ws).
+  Proof.
+    intros Em Hfix st HI [Hr HX]. destruct r as [m|s].
+    - simpl in *. subst X. split; [assumption|]. split; [apply evolves_refl|]. split; [left; eauto | reflexivity].
+    - destruct Hr as [[m Hm]|[Hs Hp]]; [discriminate|]. injection Hs as ->.
+      unfold write_m, bind, modify, ret. simpl in *. rewrite HX.
+      destruct (Inv_cmd_set st (apply_mws K X ws) HI Hp) as [HI' Hev].
+      { intros w' Em'. rewrite Em in Em'. injection Em' as <-. assumption. }
+      split; [exact HI'|]. split; [exact Hev|]. split; [right; split; reflexivity | reflexivity].
+  Qed.
+  Lemma cmd_ref_ok w : mode = Some w ->
+    triple TT (cmd_ref K inp w) (fun r p => ref_ok r p /\ apply_mws K (rdm r p) (cmdW w) = p_pre K inp w).
+  Proof.
+    intro Em. apply triple_gets_case. intros [m|] st HI E; simpl.
+    - split; [assumption|]. split; [apply evolves_refl|]. split; [right; split; [reflexivity|now rewrite E]|].
+      rewrite E. pose proof (proj1 HI) as (_&_&_&_&_&_&_&_&Hc). now apply Hc.
+    - split; [assumption|]. split; [apply evolves_refl|]. split; [left; eauto|]. symmetry. apply p_pre_eq.
+  Qed.
+
+  Lemma lf_pres : store_pres (val (get_lf K inp)).
+  Proof.
+    intro st. unfold val, get_lf, cached, bind, gets, ret. destruct (cache st QLf); simpl; [reflexivity|].
+    destruct (s_lf (store st)); reflexivity.
+  Qed.
+  Lemma momm_pres : store_pres (val (get_momm K inp)).
+  Proof.
+    intro st. unfold val, get_momm, cached, bind, gets, ret. destruct (cache st QMomm); simpl; [reflexivity|].
+    destruct (s_momm (store st)); reflexivity.
+  Qed.
+  Lemma momm_val : vtriple (val (get_momm K inp)) (fun v => v = PL (momm_fresh K inp)).
+  Proof. exact (val_triple QMomm _ momm_ok). Qed.
+
+  Lemma combine_seq_in {A} (l : list A) s i x d :
+    In (i, x) (combine (seq s (length l)) l) -> s <= i /\ i < s + length l /\ nth (i - s) l d = x.
+  Proof.
+    revert s. induction l as [|a l IH]; intros s H; simpl in *; [contradiction|].
+    destruct H as [H|H].
+    - injection H as <- <-. rewrite Nat.sub_diag. repeat split; lia.
+    - apply IH in H. destruct H as (h1 & h2 & h3). repeat split; try lia.
+      replace (i - s) with (S (i - S s)) by lia. exact h3.
+  Qed.
+  Lemma enum_in {A} (l : list A) i x d : In (i, x) (enum l) -> i < length l /\ nth i l d = x.
+  Proof.
+    intro H. apply (combine_seq_in l 0 i x d) in H. destruct H as (_ & h2 & h3). rewrite Nat.sub_0_r in h3. auto.
+  Qed.
+  Lemma nth_map_lt {A B} (g : A -> B) (l : list A) i d d' : i < length l -> nth i (map g l) d' = g (nth i l d).
+  Proof. intro H. rewrite (nth_indep _ d' (g d)) by (now rewrite map_length). apply map_nth. Qed.
+
+  Lemma flm_md_eq md :
+    (md = OffDlf (dlf_of K inp (lf_fresh K inp)) /\ law_dlf) \/ (md = OffMomm (momm_fresh K inp) /\ law_momm) \/ md = OffFresh T ->
+    flm_writes K inp md (lf_fresh K inp) = flm_writes K inp (OffFresh T) (lf_fresh K inp).
+  Proof.
+    intro H. unfold flm_writes. f_equal. rewrite !flat_map_concat_map. f_equal.
+    apply map_ext_in. intros [i x] Hix. apply map_ext_in. intros [f y] Hfy. f_equal.
+    destruct H as [ [-> L] | [ [-> L] | -> ] ]; simpl; [| |reflexivity].
+    - destruct (enum_in _ _ _ y Hfy) as [Hlt _]. unfold dlf_of.
+      rewrite (nth_map_lt (fun l : mat T => k_dlfm K (k_cw K l (n inp))) (lf_fresh K inp) f [] []) by (unfold lf_fresh; now rewrite map_length). apply L.
+    - destruct (enum_in _ _ _ x Hix) as [Hlt Hn]. unfold momm_fresh.
+      rewrite (nth_map_lt (fun x : lobj T * (nat * nat) => conv_mm K (lo_mm (fst x))) (mappers inp) i x []) by assumption. rewrite Hn. apply L.
+  Qed.
+
+  Lemma write_m_ok' w r ws :
+    mode = Some w ->
+    (forall X, apply_mws K X (cmdW w) = p_pre K inp w -> apply_mws K (apply_mws K X ws) (cmdW w) = p_pre K inp w) ->
+    triple (fun p => ref_ok r p /\ apply_mws K (rdm r p) (cmdW w) = p_pre K inp w) (write_m K r ws)
+           (fun r' p => ref_ok r' p /\ exists X, rdm r' p = apply_mws K X ws /\ apply_mws K X (cmdW w) = p_pre K inp w).
+  Proof.
+    intros Em Hfix st HI [Hr HX].
+    destruct (write_m_ok w r ws (rdm r (store st)) Em (Hfix _ HX) st HI (conj Hr eq_refl)) as (a & b & c & e).
+    split; [assumption|]. split; [assumption|]. split; [assumption|]. eauto.
+  Qed.
+  Lemma multi_ref_ok w B :
+    mode = Some w -> cmdW w = multi_writes K inp (wt_w w) ++ B ->
+    triple TT (multi_ref K inp w)
+           (fun r p => ref_ok r p /\ exists X, rdm r p = apply_mws K X (multi_writes K inp (wt_w w))
+                                              /\ apply_mws K X (cmdW w) = p_pre K inp w).
+  Proof.
+    intros Em HW. unfold multi_ref. eapply triple_bind; [apply (cmd_ref_ok w Em)|]. intros r.
+    apply write_m_ok'; [assumption|]. intros X HX. rewrite HW in *. now rewrite apply_mws_absorb.
+  Qed.
+
+  Lemma flm_tail w r X :
+    mode = Some w -> has_func inp = true ->
+    triple (fun p => ref_ok r p /\ rdm r p = apply_mws K X (multi_writes K inp (wt_w w))
+                     /\ apply_mws K X (cmdW w) = p_pre K inp w)
+      (sd <- gets (@s_dlf T);; sm <- gets (@s_momm T);;
+       md <- match sd, sm with
+             | Some l, _ => ret (OffDlf (rekey (funcs inp) l))
+             | None, Some _ => l <- val (get_momm K inp);; ret (OffMomm (as_l l))
+             | None, None => ret (OffFresh T)
+             end;;
+       write_m K r (flm_writes K inp md (lf_fresh K inp)))
+      (fun r' p => rdm r' p = p_pre K inp w).
+  Proof.
+    intros Em Ef.
+    set (A := multi_writes K inp (wt_w w)). set (B := flm_writes K inp (OffFresh T) (lf_fresh K inp)).
+    assert (HW : cmdW w = A ++ B) by (unfold cmdW; now rewrite Ef).
+    set (Pre0 := fun p : pstore T => ref_ok r p /\ rdm r p = apply_mws K X A /\ apply_mws K X (cmdW w) = p_pre K inp w).
+    eapply triple_bind; [apply triple_gets|]. intros sd.
+    eapply triple_bind; [apply triple_gets|]. intros sm.
+    eapply triple_bind with (Q := fun md p => flm_writes K inp md (lf_fresh K inp) = B /\ Pre0 p).
+    - destruct sd as [l|]; [|destruct sm as [l|]].
+      + eapply triple_post; [apply triple_ret|]. intros md p Hc [-> [_ [Hsd HP]]]. split; [|exact HP].
+        destruct Hc as (_&_&_&_&_&Hdl&_). destruct (Hdl l (eq_sym Hsd)) as [-> L].
+        replace (rekey (funcs inp) (dlf_of K inp (lf_fresh K inp))) with (dlf_of K inp (lf_fresh K inp)).
+        * apply flm_md_eq. left. auto.
+        * unfold rekey. replace (length (funcs inp)) with (length (dlf_of K inp (lf_fresh K inp)))
+            by (unfold dlf_of, lf_fresh; now rewrite !map_length). now rewrite firstn_len.
+      + eapply triple_bind; [apply triple_frame_pres; [apply momm_pres | apply momm_val]|].
+        intros a. eapply triple_post; [apply triple_ret|]. intros md p Hc [-> [[Hsm [_ HP]] ->]]. split; [|exact HP].
+        destruct Hc as (_&_&_&_&_&_&Hmo&_). destruct (Hmo l (eq_sym Hsm)) as [_ L]. simpl.
+        apply flm_md_eq. right. left. auto.
+      + eapply triple_post; [apply triple_ret|]. intros md p _ [-> [_ [_ HP]]]. split; [reflexivity|exact HP].
+    - intros md st HI [Hmd (Hr & HX1 & HX2)]. rewrite Hmd.
+      assert (Hfix : apply_mws K (apply_mws K (apply_mws K X A) B) (cmdW w) = p_pre K inp w).
+      { rewrite <- (apply_mws_app T K X A B), <- HW, HX2. rewrite <- HX2 at 1. rewrite apply_mws_idem. exact HX2. }
+      destruct (write_m_ok w r B (apply_mws K X A) Em Hfix st HI (conj Hr HX1)) as (a & b & _ & e).
+      split; [assumption|]. split; [assumption|]. rewrite e, <- (apply_mws_app T K X A B), <- HW. exact HX2.
+  Qed.
+
+  Lemma pre_ref_ok w : mode = Some w ->
+    triple TT (if has_func inp then flm_ref K inp w
+               else if Nat.eqb (length (mappers inp)) 1 then cmd_ref K inp w else multi_ref K inp w)
+           (fun r p => rdm r p = p_pre K inp w).
+  Proof.
+    intro Em. destruct (has_func inp) eqn:Ef; [|destruct (Nat.eqb (length (mappers inp)) 1) eqn:En].
+    - (* _curvature_matrix_func_list_and_mapper *)
+      assert (HW : cmdW w = multi_writes K inp (wt_w w) ++ flm_writes K inp (OffFresh T) (lf_fresh K inp))
+        by (unfold cmdW; now rewrite Ef).
+      unfold flm_ref. eapply triple_bind; [apply (multi_ref_ok w _ Em HW)|]. intros r.
+      eapply triple_bind; [apply triple_frame_pres; [apply lf_pres | apply lf_val]|].
+      intros lf st HI [[Hr (X & HX1 & HX2)] ->].
+      apply (flm_tail w r X Em Ef st HI (conj Hr (conj HX1 HX2))).
+    - (* one mapper, no function object: _curvature_matrix_mapper_diag itself *)
+      eapply triple_post; [apply (cmd_ref_ok w Em)|]. intros r p _ [_ H]. unfold cmdW in H. now rewrite Ef, En in H.
+    - (* several mappers *)
+      assert (HW : cmdW w = multi_writes K inp (wt_w w) ++ []) by (unfold cmdW; now rewrite Ef, En, app_nil_r).
+      eapply triple_post; [apply (multi_ref_ok w [] Em HW)|]. intros r p _ [_ (X & H1 & H2)].
+      rewrite H1. rewrite HW, app_nil_r in H2. exact H2.
+  Qed.
 End Logic.
